@@ -392,6 +392,7 @@ let () =
        | ["num"; n] -> ignore (num_tok n)
        | ["trace"; "on"] -> tracing := true
        | ["dls"; v] -> dls_on := (v = "on")
+       | ["errnul"; _] | ["track"; _] -> ()
        | ["stall"; _] -> ()
        | t :: "op" :: rest when Stdlib.String.length t = 2 && t.[0] = 't' ->
            let i = Char.code t.[1] - 48 in
